@@ -60,6 +60,19 @@ var stateModel = []stateStruct{
 		{"filterExpressions", "primary", ""}, {"keyExpressions", "primary", ""}, {"writeCondExpressions", "primary", ""},
 		{"updateExpressions", "primary", ""}}},
 	{"interp", "Language", []stateField{{"Debug", "config", ""}}},
+	// the value objects of the expression language: what an object IS is its Value (structural equality, conversion back
+	// to an attribute and the comparators read nothing else); a field added to one of them is a second representation of
+	// the value (the numeral it was read from, a cached rendering) that equality and copying would have to know about
+	{"lang", "Number", []stateField{{"Value", "primary", ""}}},
+	{"lang", "String", []stateField{{"Value", "primary", ""}}},
+	{"lang", "Binary", []stateField{{"Value", "primary", ""}}},
+	{"lang", "Boolean", []stateField{{"Value", "primary", ""}}},
+	{"lang", "Null", []stateField{{"IsUndefined", "primary", ""}}},
+	{"lang", "Map", []stateField{{"Value", "primary", ""}}},
+	{"lang", "List", []stateField{{"Value", "primary", ""}, {"dirty", "derived", "Value"}}},
+	{"lang", "StringSet", []stateField{{"Value", "primary", ""}}},
+	{"lang", "NumberSet", []stateField{{"Value", "primary", ""}}},
+	{"lang", "BinarySet", []stateField{{"Value", "primary", ""}}},
 }
 
 var fieldOriginRe = regexp.MustCompile(`field[: ]([A-Za-z_][A-Za-z0-9_]*)\.([A-Za-z_][A-Za-z0-9_]*)`)
